@@ -683,6 +683,8 @@ def clause_for(expr, env, tags, brush, bash):
         return "subscript_evaluated_twice"
     if "subscript_evaluated_twice" in tags:
         return "subscript_evaluated_twice"
+    if "recursion_depth_limit_differs" in tags and bash[0] == "e recursion":
+        return "recursion_depth_limit_differs"
     return None
 
 
@@ -717,7 +719,7 @@ def corpus_cases():
                 continue
             for l in open(os.path.join(cdir, f), encoding="utf-8"):
                 l = l.rstrip("\n")
-                if not l.strip() or l.startswith("//"):
+                if l == "" or l.startswith("//") or "\t" not in l:
                     continue
                 # format: <clause or -> TAB <expr> [TAB name=value]...
                 parts = l.split("\t")
@@ -743,9 +745,9 @@ def run(ctx):
         cases.append((b, e, env, {tag} if tag else set(), None))
     for b, t, env, style in exhaustive_cases():
         cases.append((b, render(t, rng, style), env, features(t), sexpr(t)))
-    for b, t, env, style in random_cases(rng, ctx.size(6000, 120000), ctx.size(3, 5)):
+    for b, t, env, style in random_cases(rng, ctx.size(20000, 300000), ctx.size(3, 5)):
         cases.append((b, render(t, rng, style), env, features(t), sexpr(t)))
-    for b, e, env, tag in special_cases(rng, ctx.size(1500, 20000)):
+    for b, e, env, tag in special_cases(rng, ctx.size(4000, 40000)):
         cases.append((b, e, env, {tag} if tag else set(), None))
     # the scripts put the text inside $(( )): keep texts the shell itself would rewrite out of the eval stream
     n = len(cases)
